@@ -197,7 +197,12 @@ impl PaMap {
                     if let PathAttributeType::Invalid(n) = pa.type_code().into() {
                         warn!("invalid PA {}:\n{}", n, pdu.fmt_pcap_string());
                     }
-                    pa_map.attributes_mut().insert(pa.type_code(), pa.to_owned()?);
+                    // RFC 7606 3.g: of an attribute that appears more than
+                    // once, only the first occurrence counts (this is also
+                    // what PathAttributes::get returns).
+                    if !pa_map.attributes().contains_key(&pa.type_code()) {
+                        pa_map.attributes_mut().insert(pa.type_code(), pa.to_owned()?);
+                    }
                 }
             } else {
                 return Err(ComposeError::InvalidAttribute);
